@@ -1402,7 +1402,8 @@ fn plain_hdr(r: &mut Rng, index: u64, strat: &'static str) -> GHdr {
 fn plain_q(r: &mut Rng) -> Qd {
     Qd {
         qname: if r.chance(1, 8) { plain_qname(r) } else { simple_qname(r) },
-        qtype: *r.pick(&[1u16, 1, 2, 5, 15, 16, 28, 255]),
+        // data types, QTYPE-only codes (IXFR 251, AXFR 252, ANY 255), OPT's code and the ends of the range
+        qtype: *r.pick(&[1u16, 1, 1, 2, 5, 15, 16, 28, 255, 252, 251, 41, 0, 65535]),
         qclass: *r.pick(&[1u16, 1, 1, 3, 255]),
     }
 }
